@@ -1,7 +1,7 @@
 (* MemBuf/Props.v — theorems of property C08 (ART ≡ RBT ≡ reference model).
    L0 = Staged.v (reference: stack of staging levels over an ordered map),
    L1 = VLog.v (key table + append-only value log with old links: the mechanism shared by ART and RBT). *)
-From Verif Require Import MemBuf.Model MemBuf.ProofsKMap MemBuf.ProofsLog MemBuf.ProofsSim MemBuf.ProofsObs
+From Verif Require Import MemBuf.Model MemBuf.Art MemBuf.ProofsArt MemBuf.ProofsKMap MemBuf.ProofsLog MemBuf.ProofsSim MemBuf.ProofsObs
   MemBuf.ProofsSet MemBuf.ProofsRevert MemBuf.ProofsStep MemBuf.ProofsProps.
 
 (* 1. Refinement.  Over ALL operation sequences — mutators and observers, valid and invalid handles /
@@ -151,6 +151,54 @@ Theorem C08_release_keeps :
     end.
 Proof. intros s h o. destruct (release0_keeps h s) as [Ea Ek]. apply obs0_values_ext; assumption. Qed.
 Print Assumptions C08_release_keeps.
+
+(* 7. L2, the shape of the radix tree (Art.v; compared node by node with the real tree on every run).
+   wf = every leaf below a node extends the node's path (path compression with at most 20 stored bytes, in-place
+   leaf = the key that ends at the node, children sorted by byte).  For EVERY well-formed tree — any key set,
+   any fan-out, prefixes longer than the stored 20 bytes, keys that are prefixes of others, the empty key: *)
+(* search never returns a wrong leaf (no hypothesis at all) *)
+Theorem C08_L2_search_sound :
+  forall t k d k', search k d t = Some k' -> k' = k /\ In k (inorder t).
+Proof. exact (proj1 search_sound_both). Qed.
+Print Assumptions C08_L2_search_sound.
+
+(* search finds every key stored in a well-formed tree: lookup = membership in the in-order traversal *)
+Theorem C08_L2_lookup_is_membership :
+  forall o k, wf_root o -> (lookup k o = true <-> In k (keys_of_tree o)).
+Proof.
+  intros [t|] k H; cbn [lookup keys_of_tree]; [|split; [discriminate|contradiction]]. split.
+  - destruct (search k 0 t) eqn:E; [|discriminate]. intros _. exact (proj2 (proj1 search_sound_both _ _ _ _ E)).
+  - intros Hin. change 0%nat with (@length N []). rewrite (proj1 search_complete_both t [] k H Hin). reflexivity.
+Qed.
+Print Assumptions C08_L2_lookup_is_membership.
+
+(* the in-order traversal (in-place leaf first, then the children by byte) is strictly ascending in bytes.Compare
+   order: it IS the sorted key table that L1 uses *)
+Theorem C08_L2_inorder_sorted :
+  forall o, wf_root o -> lsorted (keys_of_tree o).
+Proof. intros [t|] H; [exact (proj1 inorder_sorted_both t [] H)|exact I]. Qed.
+Print Assumptions C08_L2_inorder_sorted.
+
+(* insert (recursiveInsert with expandLeafIfNeeded / expandNode / node growth) builds the ordered map: in-order =
+   sorted set of the inserted keys, lookup = membership, lower-bound seek = first key >= bound — PARTIAL: checked
+   exhaustively for all 16 105 insertion sequences of length <= 4 over an 11-key adversarial universe; the unbounded
+   statement (insert preserves wf and adds exactly its key) is not proven, it is exercised by the structure
+   differential on every run instead. *)
+Theorem C08_L2_insert_is_map_partial : forallb map_ok (seqs 4) = true.
+Proof. exact bounded_map_ok. Qed.
+Print Assumptions C08_L2_insert_is_map_partial.
+
+Definition l2_ex_tree : option art := Eval vm_compute in build [[1%N; 2%N]; [1%N]; [1%N; 3%N]].
+Example l2_wf_nonvacuous : wf_root l2_ex_tree.
+Proof.
+  unfold l2_ex_tree. cbn [wf_root wf wf_ch ch_lb].
+  exists []. cbn [app length firstn]. repeat split; try (right; left; discriminate).
+  exists []. cbn [app length firstn]. repeat split; try (left; discriminate); try reflexivity.
+  exists []; reflexivity. exists []; reflexivity.
+Qed.
+Example l2_long_prefix : keys_of_tree (build [long_p ++ [1%N]; long_p ++ [0%N]; firstn 21 long_p]) =
+                         [firstn 21 long_p; long_p ++ [0%N]; long_p ++ [1%N]].
+Proof. vm_compute. reflexivity. Qed.
 
 (* ---- non-vacuity ---- *)
 (* a sequence with stages, checkpoints, reverts, tombstones, flags *)
